@@ -67,6 +67,18 @@ CATALOGUE = [
     ("set_plugin_no_dot_check", "C19", "plugin_system/base_registry.py", '    if "." in plugin_register_key:\n        raise ValueError(\n            f"The value of', '    if False:\n        raise ValueError(\n            f"The value of', 1),
     ("parameter_issues_skip_lists", "C20", "model/item.py", "        elif structure is list:\n            for v in value:\n                yield name, v if isinstance(v, str) else (name, v.label)  # type:ignore[misc]\n", "        elif structure is list:\n            for v in value[:1]:\n                yield name, v if isinstance(v, str) else (name, v.label)  # type:ignore[misc]\n", 1),
     # ---- harmless edits: the property still holds, the check must stay green
+    # ---- all-sizes (PyVC-U) contracts: harmless edits must still prove, breaking ones must not
+    ("harmless_vp_rename_temp", "C01", "optimization/variable_projection.py", '    temp, _, _ = lapack.dormqr("L", "T", qr, tau, data, max(1, matrix.shape[1]), overwrite_c=0)\n\n    clp, _ = lapack.dtrtrs(qr, temp)\n\n    for i in range(matrix.shape[1]):\n        temp[i] = 0\n\n    # Kaufman Q2 step 5\n\n    residual, _, _ = lapack.dormqr("L", "N", qr, tau, temp,', '    projected, _, _ = lapack.dormqr("L", "T", qr, tau, data, max(1, matrix.shape[1]), overwrite_c=0)\n\n    clp, _ = lapack.dtrtrs(qr, projected)\n\n    for i in range(matrix.shape[1]):\n        projected[i] = 0\n\n    # Kaufman Q2 step 5\n\n    residual, _, _ = lapack.dormqr("L", "N", qr, tau, projected,', 0),
+    ("harmless_irf_switch_over_moved", "C05", "builtin/megacomplexes/decay/decay_matrix_gaussian_irf.py", "if thresh < -1:", "if thresh < -1.5:", 0),
+    ("harmless_irf_kernel_rename_loop_variable", "C05", "builtin/megacomplexes/decay/decay_matrix_gaussian_irf.py", "        for n_r in nb.prange(rates.size):\n            r_n = rates[n_r]", "        for col in nb.prange(rates.size):\n            n_r = col\n            r_n = rates[col]", 0),
+    ("harmless_no_irf_assign_into_zeroed_matrix", "C04", "builtin/megacomplexes/decay/util.py", "            matrix[n_t, n_r] += np.exp(-r_n * t_n)", "            matrix[n_t, n_r] = np.exp(-t_n * r_n)", 0),
+    ("harmless_slice_abs_operands_swapped", "C08", "optimization/data_provider.py", "np.abs(axis - interval_min).argmin()", "np.abs(interval_min - axis).argmin()", 0),
+    ("harmless_align_condition_reordered", "C09", "optimization/data_provider.py", "if len(diff) > 0 and diff.min() <= tolerance:", "if len(diff) >= 1 and tolerance >= diff.min():", 0),
+    ("irf_kernel_assign_instead_of_accumulate", "C05", "builtin/megacomplexes/decay/decay_matrix_gaussian_irf.py", "                    matrix[n_t, n_r] += scale * 0.5 * erfcx(-thresh) * np.exp(-beta * beta)", "                    matrix[n_t, n_r] = scale * 0.5 * erfcx(-thresh) * np.exp(-beta * beta)", 1),
+    ("irf_all_indices_widths_of_first_index", "C05", "builtin/megacomplexes/decay/decay_matrix_gaussian_irf.py", "            all_widths[n_w],", "            all_widths[0],", 1),
+    ("no_irf_kernel_last_time_point_skipped", "C04", "builtin/megacomplexes/decay/util.py", "        for n_t in range(times.size):", "        for n_t in range(times.size - 1):", 1),
+    ("slice_infinite_lower_bound_starts_at_one", "C08", "optimization/data_provider.py", "minimum = 0 if np.isinf(interval_min)", "minimum = 1 if np.isinf(interval_min)", 1),
+    ("align_backward_excludes_equal", "C09", "optimization/data_provider.py", "            target_axis = target_axis[diff <= 0]\n            diff = diff[diff <= 0]", "            target_axis = target_axis[diff < 0]\n            diff = diff[diff < 0]", 1),
     ("harmless_vp_rename_local", "C01", "optimization/variable_projection.py", "    for i in range(matrix.shape[1]):\n        temp[i] = 0", "    for col in range(matrix.shape[1]):\n        temp[col] = 0", 0),
     ("harmless_applies_min_max", "C08", "model/interval_item.py", "            if lower > upper:\n                lower, upper = upper, lower\n", "            lower, upper = min(lower, upper), max(lower, upper)\n", 0),
     ("harmless_enumerate_to_range", "C02", "optimization/matrix_provider.py", "        for i, index in enumerate(global_axis):\n            matrix = matrices[i]\n            clp_labels = matrix.clp_labels\n            removed_clp_labels", "        for i in range(len(global_axis)):\n            index = global_axis[i]\n            matrix = matrices[i]\n            clp_labels = matrix.clp_labels\n            removed_clp_labels", 0),
